@@ -103,19 +103,26 @@ func (es *EventSystem) subscribe(sub *Subscription) (*Subscription, pubsub.Unsub
 	ctx, cancelFn := context.WithCancel(context.Background())
 	defer cancelFn()
 
-	existingSubs := es.eventBus.Topics()
-	for _, topic := range existingSubs {
-		if topic == sub.event {
-			eventCh, unsubFn, err := es.eventBus.Subscribe(sub.event)
-			if err != nil {
-				err := errors.Wrapf(err, "failed to subscribe to topic: %s", sub.event)
-				return nil, nil, err
-			}
-
-			sub.eventCh = eventCh
-			return sub, unsubFn, nil
+	// When the event is already subscribed, join its topic. This is decided and done under the lock the event loop
+	// holds while it uninstalls a subscription, and the subscription is put into the index like an installed one:
+	// otherwise a pending uninstallation of the last indexed subscription of this event would remove the CometBFT
+	// subscription and the topic right after they were found here, and this subscription would never receive any event.
+	es.indexMux.Lock()
+	if _, subscribed := es.topicChans[sub.event]; subscribed {
+		eventCh, unsubFn, err := es.eventBus.Subscribe(sub.event)
+		if err == nil {
+			es.index[sub.typ][sub.id] = sub
 		}
+		es.indexMux.Unlock()
+		if err != nil {
+			err := errors.Wrapf(err, "failed to subscribe to topic: %s", sub.event)
+			return nil, nil, err
+		}
+
+		sub.eventCh = eventCh
+		return sub, unsubFn, nil
 	}
+	es.indexMux.Unlock()
 
 	switch sub.typ {
 	case filters.LogsSubscription:
